@@ -13,6 +13,9 @@ def trait_methods():
     return sorted(set(re.findall(r"\n    fn (\w+)", body)))
 
 
+PARTIAL_OPS = {"chmod", "chmod_b", "chown", "chown_b", "copy", "copy_b", "remove_all"}
+
+
 def compare(out, label, fa, fb):
     """The two transcripts (direct / through the enum) must be equal event for event."""
     n = 0
@@ -23,6 +26,11 @@ def compare(out, label, fa, fb):
                 ra.pop("route", None); rb.pop("route", None)
                 for i, (sa, sb) in enumerate(zip(ra["steps"], rb["steps"])):
                     n += 1
+                    if sa != sb and sa["c"] == sb["c"] and sa["r"]["o"] == sb["r"]["o"] != "ok" and sa["c"]["op"] in PARTIAL_OPS:
+                        # the same failing multi-entry call on both routes may leave different partial results (hash order):
+                        # admissible for each route (judged by Trace_Vfs), but the two histories cannot be compared any further
+                        out.cov["histories_cut_at_partial_result"] = out.cov.get("histories_cut_at_partial_result", 0) + 1
+                        break
                     if sa != sb:
                         out.add_violation(["route-differs", label, sa["c"]["op"], "direct:" + sa["r"]["o"], "enum:" + sb["r"]["o"]],
                                           record=dict(direct=sa, enum=sb, history_calls=[s["c"] for s in ra["steps"][:i]][-30:]), validator="route-compare")
@@ -41,6 +49,10 @@ def run(tier, seed):
         fb = vfsrun.hist(out, mode + "-enum", mode, args, route="enum", recs_per_chunk=40 if mode == "links" else 3)
         total += compare(out, mode, fa, fb)
     out.cov["route_pairs_compared"] = total
+    # the wrapper must also keep every single-step call ONE critical section: the controlled scheduler through Vfs::Memfs
+    from props import c04
+    c04.sched(out, "guards-enum", ["--mode", "guards", "--route", "enum"], nworkers=1)
+    c04.sched(out, "all2x1-enum", ["--mode", "all2x1", "--route", "enum", "--stride", "3"], nworkers=8)
     # static table: every trait method must be exercised through both routes by some driver
     covered = {"mkfile", "mkfile_m", "mkdir_p", "mkdir_m", "write_all", "append_all", "write_lines", "append_lines", "append_line", "remove", "remove_all",
                "move_p", "copy", "copy_b", "symlink", "set_cwd", "chmod", "chmod_b", "chown", "chown_b", "abs", "cwd", "root", "exists", "is_dir", "is_file",
